@@ -157,8 +157,13 @@ def signals(ctx, n):
     for i in range(n):
         N = int(rs.randint(12, 300))
         t = np.arange(N)
-        kind = i % 6
-        if kind == 0:
+        kind = i % 7
+        if kind == 6:
+            # a loud oscillation with a quiet gap / bursts on a weak carrier: the abs-peak magnitudes jump, the cubic spline through them
+            # overshoots (below zero for the combined envelope) - the envelope IS that interpolant all the same
+            gap = (t > N * rs.uniform(0.25, 0.4)) & (t < N * rs.uniform(0.55, 0.75))
+            x = np.where(gap, 0.02, 1.0 + rs.uniform(0, 2)) * np.sin(2 * np.pi * t / rs.uniform(5, 9)) + 0.001 * rs.randn(N)
+        elif kind == 0:
             x = rs.randn(N)
         elif kind == 1:
             x = np.cumsum(rs.randn(N))
@@ -223,7 +228,7 @@ def run(ctx):
     ctx.rule = ('(1) every sequence of length 3..%d over {-1,0,1} x pad widths 0..5 x {peaks,troughs,abs_peaks}: padded extrema and '
                 'envelope sample grid vs the model (block hashes) and vs brute-force strict extrema / mirror / order / cover; '
                 '(2) np.pad reflect-odd and median-1 on random arrays; (3) parabolic vertex on dyadic triples vs exact rationals; '
-                '(4) envelopes of random real signals (noise, walks, tones, AM/FM, plateaus, integers) x {splrep,pchip,mono_pchip} x '
+                '(4) envelopes of random real signals (noise, walks, tones, AM/FM, plateaus, integers, loud oscillations with a quiet gap) x {splrep,pchip,mono_pchip} x '
                 '{upper,lower,combined} x pad 1..4 x parabolic on/off vs the interpolant rebuilt from the returned extrema; '
                 'non-trivial = at least two extrema of the requested kind' % maxlen)
     ctx.proof(extra=['props/Prop_Tie_Extrema.v', 'props/Prop_Tie_Parab.v'])  # translation tie: program regenerated from the source + refinement theorems
@@ -303,7 +308,7 @@ def run(ctx):
             elif not bad:
                 bad.append(('parabolic', inp, [float(t[0]), float(yh[0])], [float(et), float(ey)]))
     # (4) envelopes on real signals
-    nsig = 18 if ctx.quick() else 400
+    nsig = 21 if ctx.quick() else 420
     for si, x in enumerate(signals(ctx, nsig)):
         dt = [None, None, 'int64', None, 'float32', None, None, 'int16'][si % 8]
         if dt:
